@@ -323,7 +323,7 @@ def main(argv):
             n = int(8000 * a.scale)
         else:
             cfgs = (a.configs.split(",") if a.configs else ALL_CONFIGS)
-            n = int(300000 * a.scale)
+            n = int(600000 * a.scale)
         exes = build_many(cfgs)
         m = run_sharded("c06", "gen", (curves, n // NCPU + 1), [(c, exes[c]) for c in cfgs], a.seed, timeout=3600)
         rep.merge(m)
